@@ -6,8 +6,8 @@ only), checked by TLC with Abort enabled in every stopped state of error-heavy
 programs.  Binding: real sessions.  Session A runs definitions, completed
 top-level lets, then a failing evaluation placed at a chosen depth (1..3
 frames) x open blocks (0..3) x pending values (0..2) x pending top-level
-statements after it (0..2), possibly resumed/interrupted before, then `:abort`
-and a probe battery.  Session B is a fresh session that received only the
+statements after it (0..2), possibly resumed before or with other requests served in
+between, then `:abort` and a probe battery.  Session B is a fresh session that received only the
 definitions and the completed lets, then the same probes.  Every probe answer
 must be equal."""
 import itertools
@@ -66,6 +66,8 @@ def failing_program(depth, blk, pend, trailing, resumed, topnest=0):
 
 
 PROBE_CMDS = [":resume", ":stack", ":fstmts", ":locals"]
+# requests served while the failed evaluation is still stopped, before :abort
+BETWEEN = [[], [{"method": "run", "input": "keep1 + 1"}], [{"method": "run", "input": "keep1 + nosuchvar8"}, {"method": "run", "input": ":locals"}]]
 
 
 def probes(locals_):
@@ -100,13 +102,17 @@ def run(tier, seed):
         for topnest in (0, 1, 2):
             if tier == "quick" and topnest and (trailing == 1 or pend == 1):
                 continue
-            cases.append((depth, blk, pend, trailing, resumed, topnest))
+            cases.append((depth, blk, pend, trailing, resumed, topnest, 0))
+            # other requests served between the failure and :abort: a successful evaluation, a failing one
+            if resumed == 0 and (tier != "quick" or (trailing != 1 and pend != 1)):
+                cases.append((depth, blk, pend, trailing, resumed, topnest, 1))
+                cases.append((depth, blk, pend, trailing, resumed, topnest, 2))
 
     def one(case):
-        depth, blk, pend, trailing, resumed, topnest = case
+        depth, blk, pend, trailing, resumed, topnest, between = case
         defs, lets, fail, locals_ = failing_program(depth, blk, pend, trailing, resumed, topnest)
         pr = probes(locals_)
-        a_reqs = [run_req(defs + lets + fail)] + [run_req(":resume")] * resumed + [run_req(":abort")] + pr
+        a_reqs = [run_req(defs + lets + fail)] + [run_req(":resume")] * resumed + BETWEEN[between] + [run_req(":abort")] + pr
         b_reqs = [run_req(defs + lets)] + pr
         ra = answers_of(a_reqs)
         rb = answers_of(b_reqs)
@@ -114,8 +120,9 @@ def run(tier, seed):
 
     results = pmap(one, cases)
     for case, a_reqs, (rca, aa, erra), (rcb, ab, errb), npr in results:
-        depth, blk, pend, trailing, resumed, topnest = case
-        key = f"C10 depth={depth} blocks={BLOCKS[blk][1]} pending_values={PENDING[pend][1]} trailing={trailing} resumed={resumed} topnest={topnest}"
+        depth, blk, pend, trailing, resumed, topnest, between = case
+        key = f"C10 depth={depth} blocks={BLOCKS[blk][1]} pending_values={PENDING[pend][1]} trailing={trailing} resumed={resumed} topnest={topnest}" + (f" between={between}" if between else "")
+        nb = len(BETWEEN[between])
         ck.evaluated()
         if rcb != 0 or len(ab) != 1 + npr:
             raise ToolError(f"reference session B failed for {key}: rc={rcb} {errb[-200:]}")
@@ -126,12 +133,12 @@ def run(tier, seed):
         problem = None
         if rca != 0 or rca is None:
             problem = f"session died: rc={rca} {erra[-300:]}"
-        elif len(aa) != 2 + resumed + npr:
-            problem = f"{len(aa)} answers for {2 + resumed + npr} requests"
+        elif len(aa) != 2 + resumed + nb + npr:
+            problem = f"{len(aa)} answers for {2 + resumed + nb + npr} requests"
         elif aa[0][1][0] != "error":
             raise ToolError(f"the failing evaluation did not fail for {key}: {aa[0]}")
-        elif aa[1 + resumed][1][:2] != ("command", "Aborted"):
-            problem = f":abort answered {aa[1 + resumed][1][:2]}"
+        elif aa[1 + resumed + nb][1][:2] != ("command", "Aborted"):
+            problem = f":abort answered {aa[1 + resumed + nb][1][:2]}"
         else:
             pa = aa[-npr:]
             pb = ab[-npr:]
@@ -143,7 +150,7 @@ def run(tier, seed):
             ck.fail(key, f"{key}: {problem}", {"cmd": "garden reftest-json-session s.json", "requests": a_reqs, "stderr": erra[-300:]})
     ck.assumptions += [":fvalues is not in the probe battery: values of earlier completed top-level statements legitimately remain on the value stack of a session that never aborted",
                        "the failing call is a named function (it cannot touch top-level variables), so 'the same top-level variables' is well defined"]
-    return ck.finish(rule="failure placed at frames 0..3 x top-level nesting 0..2 x open blocks 0..3 x pending values 0..2 x trailing top-level statements 0..2 x resumed 0/2 times before :abort; every case distinct and non-trivial; "
+    return ck.finish(rule="failure placed at frames 0..3 x top-level nesting 0..2 x open blocks 0..3 x pending values 0..2 x trailing top-level statements 0..2 x resumed 0/2 times before :abort x other requests in between (none / a successful evaluation / a failing one and :locals); every case distinct and non-trivial; "
                           "probes: top-level names, every local of the aborted frames, fresh expressions, :resume :stack :fstmts :locals", exhaustive=True)
 
 
